@@ -412,6 +412,29 @@ example : rwRun (fun t => if t = ofString "/a" then [.matched [some (0, 2)], .no
     [ofString "/b", ofString "/c"] 0 none ⟨0⟩ none none 80 200 (ofString "/a") none 0
     = .served (ofString "/c") 2 := by decide
 
+/-- url.rewrite-if-not-file / url.rewrite-repeat-if-not-file (mod_rewrite_physical): the rules are
+    applied — with exactly the first-match / once / repeat semantics of process_rewrite_rules — unless
+    the physical path is a regular file; an existing directory (or any other non-regular object, or a
+    missing path) does NOT exempt the request.  A regular file is served untouched whatever the rules. -/
+theorem c20_if_not_file (kind : FsKind) (repeatIdx : Nat) (cond : Option Caps) (url : UrlParts)
+    (rules : List (Bytes × MatchRes)) (h : Option RwState) :
+    (kind = .regular → rwPhysical false kind repeatIdx cond url rules h = (.goOn, h)) ∧
+    (kind ≠ .regular → rules ≠ [] →
+        rwPhysical false kind repeatIdx cond url rules h = rwCall repeatIdx cond url rules h) := by
+  constructor
+  · intro hk
+    unfold rwPhysical
+    by_cases he : rules.isEmpty = true <;> simp [he, hk]
+  · intro hk hr
+    have he : rules.isEmpty = false := by cases rules <;> simp_all
+    simp [rwPhysical, he, hk]
+
+example : rwPhysical false .directory 1 none ⟨none, none, 80, ofString "/app/", none⟩
+    [(ofString "/front.txt", .matched [some (0, 5)])] none
+    = (.comeback (ofString "/front.txt"), some ⟨0, true⟩) := by decide
+example : rwPhysical false .regular 1 none ⟨none, none, 80, ofString "/app/real.txt", none⟩
+    [(ofString "/front.txt", .matched [some (0, 13)])] none = (.goOn, none) := by decide
+
 /-! ## alias.url -/
 
 /-- mod_alias_remap(): the alias applied is the first one (in configuration order) whose key is a
